@@ -14,13 +14,17 @@ import (
 
 func init() {
 	registerDump("SumTypes", func(w *bufio.Writer) {
+		fmt.Fprintln(w, "import GV.Model.CborId")
 		fmt.Fprintln(w, "namespace GV.Gen.SumTypes")
-		fmt.Fprintln(w, "/-- (sum type, [(tag, variant label produced by the real decoder on the canonical encoding)]) -/")
-		fmt.Fprintln(w, "def table : List (String × List (Nat × String)) := [")
+		fmt.Fprintln(w, "open GV.Model.CborId")
+		fmt.Fprintln(w, "/-- per sum type: where the tagged list sits in the decoder's input, the catch-all variant (\"\" = error),")
+		fmt.Fprintln(w, "    tags nothing is predicted for, and tag -> variant label produced by the real decoder on the canonical encoding -/")
+		fmt.Fprintln(w, "def table : List SumInfo := [")
 		for i, st := range sumTypes {
 			m := map[uint64]string{}
 			for _, v := range st.variants {
-				lab, err := st.decode(v.node().bytes())
+				root, _ := st.build(v)
+				lab, err := g10aSafeDecode(st, root.bytes())
 				if err != nil {
 					lab = "ERR"
 				}
@@ -34,14 +38,40 @@ func init() {
 				ids = append(ids, k)
 			}
 			sort.Slice(ids, func(a, b int) bool { return ids[a] < ids[b] })
-			fmt.Fprintf(w, "  (%q, [", st.name)
+			natList := func(xs []uint64) string {
+				out := "["
+				for j, x := range xs {
+					if j > 0 {
+						out += ", "
+					}
+					out += fmt.Sprint(x)
+				}
+				return out + "]"
+			}
+			path := make([]uint64, len(st.path))
+			for j, x := range st.path {
+				path[j] = uint64(x)
+			}
+			guards := "["
+			for j, g := range st.guards {
+				if j > 0 {
+					guards += ", "
+				}
+				gp := make([]uint64, len(g.path))
+				for q, x := range g.path {
+					gp[q] = uint64(x)
+				}
+				guards += fmt.Sprintf("(%s, %d)", natList(gp), g.val)
+			}
+			guards += "]"
+			fmt.Fprintf(w, "  { name := %q, path := %s, guards := %s, deflt := %q, unsure := %s, tags := [", st.name, natList(path), guards, st.deflt, natList(st.unsure))
 			for j, k := range ids {
 				if j > 0 {
 					fmt.Fprint(w, ", ")
 				}
 				fmt.Fprintf(w, "(%d, %q)", k, m[k])
 			}
-			fmt.Fprint(w, "])")
+			fmt.Fprint(w, "] }")
 			if i < len(sumTypes)-1 {
 				fmt.Fprint(w, ",")
 			}
